@@ -187,6 +187,9 @@ fn main() -> Result<()> {
         }
     };
     let dest = PathBuf::from(dest);
+    if opts.target_directory.is_some() && !is_dir(&dest)? {
+        return Err(XcpError::InvalidDestination("Target directory is not a directory.").into());
+    }
 
     let sources = expand_sources(source_patterns, &opts)?;
     if sources.is_empty() {
